@@ -86,6 +86,28 @@ def api_inners(p):
     return out
 
 
+def splitter(p):
+    """The callable that splits the arguments of a call into traced tensors and the rest, found by its role in the
+    api wrappers (`args, kwargs, tensor_args = <splitter>(...)`): a module function, or the __call__ of an object the
+    enclosing factory builds once.  -> (Func, text of the callee in the wrappers)"""
+    for f in api_inners(p):
+        for n in walk_no_nested(f.node):
+            if isinstance(n, ast.Assign) and isinstance(n.targets[0], ast.Tuple) and len(n.targets[0].elts) == 3 and isinstance(n.value, ast.Call):
+                call = n.value
+                r = resolve_callee(p, call, f.module)
+                if r and r[0] == "func":
+                    return r[1], norm(call.func)
+                if isinstance(call.func, ast.Name) and f.parent is not None:
+                    for a in walk_no_nested(f.parent.node):
+                        if isinstance(a, ast.Assign) and isinstance(a.value, ast.Call) and any(isinstance(t, ast.Name) and t.id == call.func.id for t in a.targets):
+                            r2 = resolve_callee(p, a.value, f.module)
+                            if r2 and r2[0] == "class":
+                                m = p.lookup_method(r2[1], "__call__")
+                                if m is not None:
+                                    return m, norm(call.func)
+    raise AnalysisError("anchor vanished: no `args, kwargs, tensor_args = <splitter>(...)` in the api wrappers of frontend/api.py")
+
+
 def compiled_function_calls(p, f):
     """In an api wrapper: (call of the compiled function, its name, assignment that produced it, cache call)."""
     cache_names = set()
@@ -158,10 +180,10 @@ def r4(p, rep):
                     if ok:
                         break
             rep.add("C03.R4", key, site, ok, why)
-    f = p.func("_split_tensors", "frontend.api")
+    f, _ = splitter(p)
     binds = [(g, n) for g in common.with_helpers(p, f) for n in walk_no_nested(g.node) if isinstance(n, ast.Call) and isinstance(n.func, ast.Attribute) and n.func.attr == "bind"]
     if not binds:
-        raise AnalysisError("unrecognised idiom: no signature.bind(...) reachable from _split_tensors")
+        raise AnalysisError(f"unrecognised idiom: no signature.bind(...) reachable from {f.qualname}")
     for g, call in binds:
         ok, why = False, "signature.bind is not inside try/except TypeError"
         for t in enclosing_tries(call):
